@@ -3,8 +3,8 @@
    Print Assumptions; the proofs are in Proofs/. *)
 From Coq Require Import List Arith.
 Import ListNotations.
-From Exmex.Model Require Import Base EvalBinary.
-From Exmex.Proofs Require Import EvalBinaryCorrect.
+From Exmex.Model Require Import Base EvalBinary Tracker.
+From Exmex.Proofs Require Import EvalBinaryCorrect Runs WordBits SliceTracker.
 
 (* For every data type D, every number array of length n >= 1 and every duplicate-free schedule sigma
    that contains exactly the operators 0 .. n-2 (i.e. every permutation; n is not bounded), the loop of
@@ -26,6 +26,43 @@ Theorem C14_each_operand_once :
   leaves (cart (length sigma) sigma 0) = seq 0 (length nums).
 Proof. exact eval_binary_leaves. Qed.
 
+(* The same with the MACHINE-WORD bookkeeping of number_tracker.rs (Model/Tracker.v: rotate_right, leading_ones,
+   trailing_ones on 64-bit words; runs that cross word boundaries; all-ones words), chosen as FlatEx::eval_numbers
+   chooses it — one word for up to 64 numbers, a slice of 1 + n/64 words above — for every length and every valid
+   schedule: the value of the Cartesian tree, no panic. *)
+Theorem C14_machine_word_trackers_flat :
+  forall (D : Type) (dflt : D) (opf : nat -> D -> D -> D) (nums : list D) (sigma : list nat),
+  nums <> [] -> NoDup sigma -> (forall i, In i sigma <-> i < length nums - 1) ->
+  eval_binary_flat_machine dflt opf nums sigma
+    = Some (eval_tree D opf (vals_of D dflt nums) (cart (length sigma) sigma 0)).
+Proof.
+  intros D dflt opf nums sigma Hne ND Hiff.
+  apply (machine_flat dflt opf nums (length nums - 1) sigma _ Hne). apply eval_binary_is_cart; assumption.
+Qed.
+(* ... and as DeepEx::eval_relaxed chooses it: always a slice of 1 + n/64 words *)
+Theorem C14_machine_word_trackers_deep :
+  forall (D : Type) (dflt : D) (opf : nat -> D -> D -> D) (nums : list D) (sigma : list nat),
+  nums <> [] -> NoDup sigma -> (forall i, In i sigma <-> i < length nums - 1) ->
+  eval_binary_deep_machine dflt opf nums sigma
+    = Some (eval_tree D opf (vals_of D dflt nums) (cart (length sigma) sigma 0)).
+Proof.
+  intros D dflt opf nums sigma Hne ND Hiff.
+  apply (machine_deep dflt opf nums (length nums - 1) sigma _). apply eval_binary_is_cart; assumption.
+Qed.
+
+(* The slice tracker IS a vector of booleans (B ws j = bit j mod 64 of word j / 64), for any number of words and any
+   content: get_previous counts the consecutive ignored positions idx, idx-1, ... (down to position 0), get_next is one
+   plus the consecutive ignored positions idx+1, ... (up to the end of the slice), ignore sets exactly one bit. *)
+Theorem C14_slice_tracker_is_the_boolean_vector :
+  forall (ws : list N) (idx : nat), sclean ws -> idx / 64 < length ws ->
+  s_get_previous ws idx = Some (down_run (B ws) (S idx)) /\
+  s_get_next ws idx = Some (S (up_run (B ws) (S idx) (64 * length ws - S idx))) /\
+  exists ws', s_ignore ws idx = Some ws' /\ sclean ws' /\ length ws' = length ws /\
+              forall j, B ws' j = B ws j || Nat.eqb j idx.
+Proof.
+  intros ws idx Hc Hs. split; [apply slice_prev; assumption|]. split; [apply slice_next; assumption|apply slice_ignore; assumption].
+Qed.
+
 (* non-vacuity: a concrete inside-out schedule on five operands in the free term algebra *)
 Example C14_example :
   eval_binary Dflt Bin [V 0; V 1; V 2; V 3; V 4] 4 [2; 0; 3; 1]
@@ -40,3 +77,6 @@ Qed.
 
 Print Assumptions C14_any_schedule.
 Print Assumptions C14_each_operand_once.
+Print Assumptions C14_machine_word_trackers_flat.
+Print Assumptions C14_machine_word_trackers_deep.
+Print Assumptions C14_slice_tracker_is_the_boolean_vector.
